@@ -57,16 +57,26 @@ for base in PUNCT_BASES:
             texts.append(((b[:n.start_byte] + tok.encode() + b' ' + b[n.start_byte:]).decode(), 'punct-insert'))
         if n.type in (',', ';', ':', '}', ')', ']', '{', '(', '[', '=', '@', '?', 'ellipses', '...'):
             texts.append(((b[:n.start_byte] + b[n.end_byte:]).decode(), 'punct-delete'))
+# an unusual character inserted at every token boundary (seventh round: a reader that drops or normalises a character before tree-sitter
+# sees it hides the error): BOM / zero-width / no-break spaces, form feed, vertical tab, NUL, ESC, DEL, line and paragraph separators
+for base in ['{ a = 1; b = 2; }', '{ pkgs }:\n{\n  a = 1;\n  b = [ 1 2 ];\n}\n', 'let a = 1; in { a = a; }']:
+    ls = []; leaves(parse_to_ast(base), ls); b = base.encode()
+    for n in ls:
+        for chx in ('\ufeff', '\u00a0', '\u200b', '\x0c', '\x0b', '\x00', '\x1b', '\x7f', '\u2028', '\u2029', '\u0085'):
+            if n.start_byte > 0: texts.append(((b[:n.start_byte] + chx.encode() + b[n.start_byte:]).decode(), 'exotic-insert'))
 NFIX = len(texts)
 while len(texts) < NFIX + N:
     t, how = damaged()
     if t is not None: texts.append((t, how))
 VALID_DOC = '{\n  a = 1;\n  b = 2;\n}\n'
+import tree_sitter_nix as _tsn
+from tree_sitter import Language as _L, Parser as _P
+_IND = _P(_L(_tsn.language()))          # tree-sitter's own verdict, not the library's wrapper around it
 for t, how in texts:
-    err = parse_to_ast(t).has_error
+    err = _IND.parse(t.encode()).root_node.has_error
     stats[how + ('/error' if err else '/valid')] = stats.get(how + ('/error' if err else '/valid'), 0) + 1
     # ---- the text as VALUE of a set on a valid document ----
-    root = parse_to_ast(t); nexpr = len([c for c in root.children if c.type != 'comment'])
+    root = _IND.parse(t.encode()).root_node; nexpr = len([c for c in root.children if c.type != 'comment'])
     d = parse(VALID_DOC); vc = cls(lambda: set_value(d, 'a', t)); after = d.rebuild()
     if (err or nexpr != 1):
         if vc not in ('ValueError', 'KeyError'): viol.append({'what': 'a VALUE that is not exactly one well-formed expression is not refused (%s)' % vc, 'value': t})
